@@ -263,7 +263,7 @@ Definition nonempty_b (b : bytes) : bool := match b with [] => false | _ => true
 Definition skip_trivial (l : list record) : list record :=
   filter (fun r => existsb (fun kv => nonempty_b (snd kv)) r) l.
 
-(* uniq.go transformUniqifyEntireRecords: first occurrences.  The code keys its map by recordKey (/repo c5c6a78bc): the
+(* uniq.go transformUniqifyEntireRecords: first occurrences.  The code keys its map by recordKey (/repo 853ce11e9): the
    length-prefixed field names and value texts as read (plus type names), an injective rendering: same key = same record. *)
 Fixpoint uniq_a_run (seen : list record) (l : list record) : list record :=
   match l with
